@@ -128,6 +128,10 @@ def jsonNumberOk (t : List UInt8) : Bool :=
     (The limit of the code under test is 1000; such texts are refused by code and model alike.) -/
 def tooManyOpeners (bs : Bytes) : Bool := (bs.filter (fun b => b == 91 || b == 123)).length > 20000
 
+/-- `sanitise`, skipping the (quadratic, length-recomputing) model loop on pure ASCII where it is the identity
+    (theorem `sanitise_ascii` in IcingaProofs/C20/Utf8Lemmas.lean). -/
+def sanitiseD (bs : Bytes) : Bytes := if bs.all (fun b => b.toNat < 0x80) then bs else sanitise bs
+
 def tokCodec : NumCodec (List UInt8) := { fmt := id, parse := fun t => if jsonNumberOk t then some t else none }
 
 /-- The characters an Icinga string (arbitrary bytes) stands for on the wire: sanitise (ValidateUTF8), decode —
@@ -451,7 +455,7 @@ def handleK (d : DSt) (n : Nat) (line : String) (pre post : List String) : IO DS
         | none => pure ()
       -- JsonDecode sanitises the text first (json.cpp:211); the model decoder then speaks only about the
       -- whitespace-free ASCII language the encoder emits (raw non-ASCII inside strings: model silent)
-      match (if tooManyOpeners txt then none else some (sanitise txt)) with
+      match (if tooManyOpeners txt then none else some (sanitiseD txt)) with
       | none => return d
       | some txt =>
         match jsonDecodeL tokCodec txt with
@@ -476,7 +480,7 @@ def handleK (d : DSt) (n : Nat) (line : String) (pre post : List String) : IO DS
 /-- Compare what DecodeMessage returned for `payload` with the model; `none` = agreement (or the model is silent:
     text outside the whitespace-free language it decodes, or not valid UTF-8). -/
 def messageDiff (payload : Bytes) (obs : MsgObs) (toks : String) : Option String × Bool :=
-  match (if tooManyOpeners payload then none else some (sanitise payload)) with
+  match (if tooManyOpeners payload then none else some (sanitiseD payload)) with
   | none => (none, true)
   | some payload =>
     match jsonDecodeL tokCodec payload with
